@@ -48,12 +48,11 @@ Definition two_decls : list adecl :=
 Lemma merge_stray_comment : option_map a_stray (merge [mk_file "x" two_decls]) = Some ["init"].
 Proof. reflexivity. Qed.
 
-(* K_filename_case_clash: Foo and FOO share the output file x.shootnew.foo.go; the later one wins *)
+(* K_filename_case_clash (repaired in /repo): Foo and FOO share the output file x.shootnew.foo.go; both orders are now refused *)
 Definition hw_cc : list hfile :=
   [hfile1 "x.go" [strct "Foo" [IField (fld "a" "int")]; strct "FOO" [IField (fld "b" "string")]]].
 Definition c_cc_1 := cmd_new "shoot new -type=Foo,FOO" ["Foo"; "FOO"] false false.
 Definition c_cc_2 := cmd_new "shoot new -type=FOO,Foo" ["FOO"; "Foo"] false false.
-Lemma case_clash_permutation_matters :
-  map fst (toks_of_files (run_generate id_oracle (mkpkg hw_cc) [] c_cc_1)) = ["x.shootnew.foo.go"] /\
-  toks_of_files (run_generate id_oracle (mkpkg hw_cc) [] c_cc_1) <> toks_of_files (run_generate id_oracle (mkpkg hw_cc) [] c_cc_2).
-Proof. split; [vm_compute; reflexivity | vm_compute; discriminate]. Qed.
+Lemma case_clash_refused :
+  run_generate id_oracle (mkpkg hw_cc) [] c_cc_1 = None /\ run_generate id_oracle (mkpkg hw_cc) [] c_cc_2 = None.
+Proof. split; vm_compute; reflexivity. Qed.
